@@ -16,6 +16,7 @@ BIG = 1 << 20
 
 # case = {"rw": int, "rmp": int, "lw": int, "lmp": int, "ops": [op]}
 # op   = ["w", hex] | ["x", type, hex] | ["lose"] | ["adj", n] | ["rd", hex] | ["rx", type, hex] | ["rclose"]
+#        | ["aadj", n]   (the receiving application calls conn.adjustWindow(channel, n))
 
 
 # --------------------------------------------------------------------------------------
@@ -96,6 +97,8 @@ def impl(case) -> str:
                                     lid + struct.pack(">L", op[1]) + common.NS(bytes.fromhex(op[2])))
             elif k == "rclose":
                 conn.packetReceived(connection.MSG_CHANNEL_CLOSE, lid)
+            elif k == "aadj":
+                conn.adjustWindow(ch, op[1])
             else:
                 raise ValueError(op)
         except KeyError:
@@ -185,6 +188,9 @@ def oracle(case, obs):
                 if refused_expected:
                     continue
                 if not want_close:
+                    if kind in ("rd", "rx"):
+                        return Failure(case, where + f"peer respected the advertised window {aw} and max packet {lmp} but "
+                                       "was answered with CLOSE", "compliant-peer-refused")
                     return Failure(case, where + "CLOSE sent although nobody asked for it", "close-unrequested")
                 if bytes(sent) != bytes(wr):
                     return Failure(case, where + f"CLOSE sent with {len(wr) - len(sent)} byte(s) of normal data "
@@ -254,7 +260,7 @@ class _Bytes:
 def _history(rng, n, sizes, adj_sizes, weights):
     ops = []
     b = _Bytes()
-    kinds = ["w", "x", "lose", "adj", "rd", "rx", "rclose"]
+    kinds = ["w", "x", "lose", "adj", "rd", "rx", "rclose", "aadj"]
     for _ in range(n):
         k = rng.choices(kinds, weights)[0]
         if k == "w":
@@ -267,6 +273,8 @@ def _history(rng, n, sizes, adj_sizes, weights):
             ops.append(["rd", b.take(rng.choice(sizes))])
         elif k == "rx":
             ops.append(["rx", rng.choice([1, 2]), b.take(rng.choice(sizes))])
+        elif k == "aadj":
+            ops.append(["aadj", rng.choice(adj_sizes)])
         else:
             ops.append([k])
     return ops
@@ -277,7 +285,7 @@ def gen(rng, tier):
     quick = tier == "quick"
     # (a) bounded-exhaustive: every history up to depth d over a small alphabet, tiny limits
     alpha = [("w", 1), ("w", 3), ("x1", 2), ("x2", 1), ("lose",), ("adj", 1), ("adj", 4), ("rd", 1), ("rd", 2),
-             ("rx", 1), ("rclose",)]
+             ("rx", 1), ("rclose",), ("aadj", 3)]
     depth = 3 if quick else 4
     cfgs = [(0, 1, 1, 1), (1, 2, 2, 1), (2, 1, 3, 2), (3, 2, 4, 3)] if quick else \
         [(rw, rmp, lw, lmp) for rw in (0, 1, 3) for rmp in (1, 2) for lw in (1, 2, 4) for lmp in (1, 3)]
@@ -293,8 +301,8 @@ def gen(rng, tier):
                         ops.append(["w", b.take(a[1])])
                     elif a[0] in ("x1", "x2"):
                         ops.append(["x", int(a[0][1]), b.take(a[1])])
-                    elif a[0] == "adj":
-                        ops.append(["adj", a[1]])
+                    elif a[0] in ("adj", "aadj"):
+                        ops.append([a[0], a[1]])
                     elif a[0] == "rd":
                         ops.append(["rd", b.take(a[1])])
                     elif a[0] == "rx":
@@ -304,10 +312,10 @@ def gen(rng, tier):
                 cases.append({"rw": rw, "rmp": rmp, "lw": lw, "lmp": lmp, "ops": ops})
     # (b) random histories, limits from 1 byte up, several op mixes
     mixes = {
-        "send": [5, 4, 1, 5, 1, 1, 0.5],
-        "close": [3, 5, 3, 5, 0.5, 0.5, 1.5],
-        "recv": [1, 1, 0.5, 1, 6, 4, 0.5],
-        "all": [3, 3, 1, 3, 3, 2, 1],
+        "send": [5, 4, 1, 5, 1, 1, 0.5, 0.3],
+        "close": [3, 5, 3, 5, 0.5, 0.5, 1.5, 0.3],
+        "recv": [1, 1, 0.5, 1, 6, 4, 0.5, 2.5],
+        "all": [3, 3, 1, 3, 3, 2, 1, 1],
     }
     nrand = 1500 if quick else 40000
     for i in range(nrand):
@@ -351,6 +359,9 @@ def corpus():
         {"rw": 0, "rmp": 1, "lw": 4, "lmp": 3, "ops": [["rd", h("abc")], ["rd", h("d")], ["rd", h("efg")], ["rd", h("hijk")]]},
         {"rw": 0, "rmp": 1, "lw": 6, "lmp": 6, "ops": [["rd", h("ab")], ["rd", h("c")], ["rd", h("defgh")], ["rx", 1, h("ijklmn")],
                                                        ["rd", h("opqrstu")]]},
+        # the application grants extra window beyond localWindowSize; the peer uses all of what was advertised
+        {"rw": 0, "rmp": 1, "lw": 8, "lmp": 8, "ops": [["aadj", 8], ["rd", h("abc")], ["rd", h("defghijk")], ["rd", h("lmnop")]]},
+        {"rw": 0, "rmp": 1, "lw": 4, "lmp": 9, "ops": [["aadj", 5], ["rd", h("abcdefghi")], ["aadj", 0], ["rx", 1, h("jklm")]]},
         # 1-byte local window
         {"rw": 0, "rmp": 1, "lw": 1, "lmp": 1, "ops": [["rd", h("a")], ["rd", h("b")]]},
     ]
@@ -378,6 +389,8 @@ def _op(o):
         return f"RData {_hx(o[1])}"
     if k == "rx":
         return f"RExt {o[1]}%N {_hx(o[2])}"
+    if k == "aadj":
+        return f"AppAdjust {o[1]}%N"
     return "RClose"
 
 
@@ -397,8 +410,8 @@ def shrink(case):
             yield {**case, "ops": ops[:i] + [[o[0], o[1][:-2]]] + ops[i + 1:]}
         if o[0] in ("x", "rx") and len(o[2]) > 2:
             yield {**case, "ops": ops[:i] + [[o[0], o[1], o[2][:-2]]] + ops[i + 1:]}
-        if o[0] == "adj" and o[1] > 1:
-            yield {**case, "ops": ops[:i] + [["adj", o[1] // 2]] + ops[i + 1:]}
+        if o[0] in ("adj", "aadj") and o[1] > 1:
+            yield {**case, "ops": ops[:i] + [[o[0], o[1] // 2]] + ops[i + 1:]}
     for key in ("rw",):
         if case[key] > 0:
             yield {**case, key: case[key] - 1}
@@ -428,9 +441,9 @@ SPEC = Spec(
     to_coq=to_coq,
     nontrivial=lambda c, o: any(t in o.split(" |")[0] for t in ("D", "X", "C", "A")),
     histogram=histogram,
-    rule="every history up to depth 3 (quick; deepest level sampled 50%) / 4 (thorough, 15%) over an 11-letter alphabet "
+    rule="every history up to depth 3 (quick; deepest level sampled 50%) / 4 (thorough, 15%) over a 12-letter alphabet "
          "{write 1/3 bytes, writeExtended type 1/2, loseConnection, WINDOW_ADJUST 1/4, CHANNEL_DATA 1/2, EXTENDED_DATA, "
-         "CLOSE} for 4 (thorough 36) tiny window/packet configurations; random histories of 2-13 (thorough 2-29) ops in four "
+         "CLOSE, application adjustWindow(3)} for 4 (thorough 36) tiny window/packet configurations; random histories of 2-13 (thorough 2-29) ops in four "
          "op mixes with remote window 0-200, max packets 1-64, local window 1-100, half ending with a draining "
          "WINDOW_ADJUST; 32-bit window sizes; non-trivial = at least one data/ext/close/adjust packet sent; "
          "distinct by (case, observation)",
